@@ -997,4 +997,52 @@ def mutants(rnd, base: Dict[str, Any], all_values: bool = True) -> List[Dict[str
         d["components"][i].setdefault("override", {})[other] = ov
         d["platforms"] = ["default", other] + ([platform] if platform else [])
         add(kind, "info", d, [cid(comps[i]), "override", other], info_only=True)
+    # -- the variable `replica` exists only inside the replicas of a replicating component (and of its descendants
+    #    up to an aggregating one).  (a) take away the replication that defines it for a component that uses it;
+    #    (b) use it in a component outside any replication.  Both leave an undefined variable behind.
+    closure = replicated_producers(lit)
+    inside = {x for x in closure
+              if not lcomps[ids[x]].get("workflowAttributes", {}).get("aggregate")}
+    for a in base.get("arrays", []):
+        if not a.get("replica") or a["comp"] not in ids:
+            continue
+        ci = ids[a["comp"]]
+        if comps[ci].get("workflowAttributes", {}).get("replicate") is None:
+            continue
+        for how in ("missing", 0, None):
+            d = copy.deepcopy(doc)
+            wa = d["components"][ci]["workflowAttributes"]
+            if how == "missing":
+                del wa["replicate"]
+            else:
+                wa["replicate"] = how
+            add("remove-replication", "undefined-variable", d, [a["comp"], "workflowAttributes", "replicate"],
+                how=repr(how), use="array-index")
+    outside = [i for i, c in enumerate(comps) if cid(c) not in inside]
+    rnd.shuffle(outside)
+    for i in outside[:2]:
+        c = comps[i]
+        form = rnd.choice(["arguments-plain", "arguments-array", "arguments-array", "component-variable",
+                           "executable-array", "global-variable"])
+        d = copy.deepcopy(doc)
+        cc = d["components"][i]
+        st = c.get("stage", 0)
+        layer = rnd.choice([("global",), ("stage", st), ("component", i)])
+        args = cc["command"].get("arguments", "")
+        if form == "arguments-plain":
+            cc["command"]["arguments"] = (args + " -r %(replica)s").strip()
+        elif form == "arguments-array":
+            define_var(d, "rep_arr", "r-a r-b r-c", layer, i)
+            cc["command"]["arguments"] = (args + " %(rep_arr)s[%(replica)s]").strip()
+        elif form == "component-variable":
+            define_var(d, "rep_v", "r%(replica)s", ("component", i), i)
+            cc["command"]["arguments"] = (args + " %(rep_v)s").strip()
+        elif form == "global-variable":
+            define_var(d, "rep_g", "r%(replica)s", ("global",), i)
+            cc["command"]["arguments"] = (args + " %(rep_g)s").strip()
+        else:
+            define_var(d, "rep_exe", "echo cat ls", layer, i)
+            cc["command"]["executable"] = "%(rep_exe)s[%(replica)s]"
+        add("replica-outside-replication", "undefined-variable", d, [cid(c)], use=form,
+            aggregating=bool(c.get("workflowAttributes", {}).get("aggregate")))
     return out
